@@ -131,6 +131,15 @@ static inline std::string gen_doc(Rng & r, const DocOpts & o) {
 				if (o.images || !o.image_urls.empty()) {
 					nimg++;
 					std::string url = o.image_urls.empty() ? "img" + std::to_string(r.below(3)) + ".png" : o.image_urls[r.below(o.image_urls.size())];
+					if (!o.image_urls.empty() && r.chance(1, 5)) {
+						// an image that is only referenced from inside a footnote definition, a table cell, a list item or a block quote
+						unsigned where = (unsigned)r.below(4);
+						if (where == 0) { d += gen_words(r, 1) + "[^img" + std::to_string(nimg) + "]\n\n"; defs += "[^img" + std::to_string(nimg) + "]: note with ![in note](" + url + ") inside\n\n"; }
+						else if (where == 1) d += "| a | ![cell](" + url + ") |\n| --- | --- |\n| x | y |\n\n";
+						else if (where == 2) d += "* item ![li](" + url + ")\n* two\n\n";
+						else d += "> quoted ![q](" + url + ")\n\n";
+						break;
+					}
 					if (r.chance(1, 3)) { d += "![alt *text*][i" + std::to_string(nimg) + "]\n\n"; defs += "[i" + std::to_string(nimg) + "]: " + url + " \"cap\" width=40px\n\n"; }
 					else d += gen_words(r, 1) + " ![alt " + std::to_string(nimg) + "](" + url + (r.chance(1, 3) ? " \"title\"" : "") + ") " + gen_words(r, 1) + "\n\n";
 					break;
